@@ -96,6 +96,20 @@ def terminalOK (s : CS) : Bool :=
        w.currentRevision == w.updateRevision
    | none => false)
 
+/-- **C07 (oracle on the fair walks of the real controllers)** — over the states at the round boundaries of a healthy fair run,
+    from the release on: from every boundary state that is not idle-done, within `K` rounds the measure is strictly smaller -/
+def measureDecreases (K : Nat) : List CS → Bool
+  | [] => true
+  | s :: rest =>
+    (idleDone s || mu s == 0 || ((rest.take K).any fun t => mu t < mu s) || rest.length < K) && measureDecreases K rest
+
+/-- first boundary index (diagnostics) at which `measureDecreases` fails -/
+def measureFirstBad (K : Nat) : List CS → Nat → Option (Nat × Nat)
+  | [], _ => none
+  | s :: rest, i =>
+    if idleDone s || mu s == 0 || ((rest.take K).any fun t => mu t < mu s) || rest.length < K then measureFirstBad K rest (i + 1)
+    else some (i, mu s)
+
 /-- bound of the measure: every state has `mu s ≤ muBound` -/
 def muBound (n : Nat) : Nat := 32 + n * stepW + 4
 
